@@ -109,17 +109,32 @@ class Schema:
 
     def redeclarations(self, members):
         """For a set of entity names: map (owner, attr) -> ("derived"|"explicit", redeclaring entity, new type)
-        for attributes redeclared by some member."""
-        red = {}
+        for attributes redeclared by some member.  `owner` is the entity that DECLARES the attribute: a re-declaration of a
+        re-declaration (SELF\\mid.a in a sub-subtype) is followed back to it, and the most specific re-declaration wins."""
+        def declaring(ent, attr):
+            seen = set()
+            while ent not in seen:
+                seen.add(ent)
+                nxt = None
+                for a in self.ent(ent)["attrs"] + self.ent(ent)["derived"]:
+                    if a["name"].lower() == attr and a.get("redecl"):
+                        nxt = a["redecl"].lower()
+                if nxt is None:
+                    return ent
+                ent = nxt
+            return ent
+        cands = {}
         for m in members:
             e = self.ent(m)
             for a in e["attrs"]:
                 if a.get("redecl"):
-                    red[(a["redecl"].lower(), a["name"].lower())] = ("explicit", m, a["type"], a["optional"])
+                    key = (declaring(a["redecl"].lower(), a["name"].lower()), a["name"].lower())
+                    cands.setdefault(key, []).append((len(self.ancestors(m)), m.lower(), ("explicit", m, a["type"], a["optional"])))
             for a in e["derived"]:
                 if a.get("redecl"):
-                    red[(a["redecl"].lower(), a["name"].lower())] = ("derived", m, a["type"])
-        return red
+                    key = (declaring(a["redecl"].lower(), a["name"].lower()), a["name"].lower())
+                    cands.setdefault(key, []).append((len(self.ancestors(m)), m.lower(), ("derived", m, a["type"])))
+        return {k: sorted(v)[-1][2] for k, v in cands.items()}
 
     def own_slots(self, n):
         """Explicit, non-redeclaring attributes declared by n itself, in order."""
